@@ -61,6 +61,12 @@ def enumerated(tier, seed):
     for ch in ("\x0b", "\x0c", "\x1c", "\x1d", "\x1e", "\x85", "\u2028", "\u2029"):
         yield dict(p=[" ORG $1000\n", "L0 LDA #1 ; page" + ch + "break\n", " BRA L0\n"], qs=[], fresh=True, hashseeds=[0], cli=True)
         yield dict(p=[" ORG $1000\n", "L0 FCC /a" + ch + "b/\n", " BRA L0\n"], qs=[a], fresh=True, hashseeds=[0], cli=True)
+    # lines a file reader might be tempted to drop or join (EDTASM's * comment lines, blank lines, a lone ;, a label
+    # alone, a last line without a line end): whatever the tool makes of them, both routes make the same of them
+    for extra in ("* title\n", "   *** part ***\n", "*\n", "\n", "   \n", ";\n", " ; note\n", "ALONE\n", "\t\n", "* LDA #1\n"):
+        for at in (0, 1, 3):
+            body = [" ORG $1000\n", "L0 LDA #1\n", " BRA L0\n"]
+            yield dict(p=body[:at] + [extra] + body[at:], qs=[], fresh=True, hashseeds=[0], cli=True)
     # the same list-element spellings bound to different values in different programs
     e = [" ORG $0E00\n", "E0 EQU $28\n", " NOP \n", "L0 RMB 8\n", " FDB L0+2,E0*2,0\n", " FCB E0,1,E0+1\n"]
     f = [" ORG $3000\n", "L0 FDB L0+2,E0*2,0\n", "E0 EQU $10\n", " FCB E0,1,E0+1\n"]
